@@ -51,10 +51,12 @@ def cfg_fields(d):
 
 
 def covering_cfgs(ctx):
-    """every personality's configuration + each switch flipped individually (+ pairs with the all-on/all-off corners)."""
-    seen, out = set(), []
+    """(core, extra): core = every personality's configuration and the all-on / all-off corners, each with every switch
+    flipped individually and every invalid-handling value; extra = every unwanted code changed, the replacement byte
+    changed, handling x u_decode x bestfit, distinct status codes per anomaly."""
+    seen, core, extra = set(), [], []
 
-    def add(d):
+    def add(d, out):
         k = cfg_fields(d)
         if k not in seen:
             seen.add(k)
@@ -69,25 +71,26 @@ def covering_cfgs(ctx):
     corners[0]["handling"] = 2
     bases = bases + corners
     for base in bases:
-        add(base)
+        add(base, core)
         for b in BOOLS:
-            d = dict(base); d[b] = not d[b]; add(d)
+            d = dict(base); d[b] = not d[b]; add(d, core)
         for h in (0, 1, 2):
-            d = dict(base); d["handling"] = h; add(d)
+            d = dict(base); d["handling"] = h; add(d, core)
+    for base in bases:
         for u in UNW:
-            d = dict(base); d[u] = 404 if d[u] else 400; add(d)
-        d = dict(base); d["replacement"] = 0x2f if base["replacement"] != 0x2f else 0x3f; add(d)
+            d = dict(base); d[u] = 404 if d[u] else 400; add(d, extra)
+        d = dict(base); d["replacement"] = 0x2f if base["replacement"] != 0x2f else 0x3f; add(d, extra)
         # handling x u_decode x bestfit interact on the same bytes
         for h in (0, 1, 2):
             for ud in (False, True):
                 for bf in (False, True):
-                    d = dict(base); d["handling"] = h; d["u_decode"] = ud; d["bestfit"] = bf; add(d)
+                    d = dict(base); d["handling"] = h; d["u_decode"] = ud; d["bestfit"] = bf; add(d, extra)
         # distinct status per anomaly, so the order of the writes to response_status_expected_number is visible
         d = dict(base)
         for j, u in enumerate(UNW):
             d[u] = 400 + j
-        add(d)
-    return out
+        add(d, extra)
+    return core, extra
 
 
 def random_cfgs(ctx, n):
@@ -106,7 +109,33 @@ def random_cfgs(ctx, n):
 TOKENS = [b"/", b".", b"..", b"a", b"A", b"\\", b"%2f", b"%2F", b"%5c", b"%00", b"%41", b"%2e", b"%c0%af", b"%", b"%2", b"%zz", b"%u",
           b"%u002f", b"%U005C", b"%u0000", b"%u0041", b"%uff0f", b"%uFF0E", b"%u0107", b"%u00}9", b"%u12", b"%u123", b"%uzzzz",
           b"\x00", b"\xc0\xaf", b"\xc0\x80", b"\xc1", b"\xe0\x80\xaf", b"\xef\xbc\x8f", b"\xef\xbc\x8e", b"\xf0\x80\x80\xaf", b"\xc4\x87",
-          b"\xe2\x82", b"\x80", b"\xf4\x90\x80\x80", b"\xf5", b"\x1f", b"%1f", b"%25", b"%252f"]
+          b"\xe2\x82", b"\x80", b"\xf4\x90\x80\x80", b"\xf5", b"\x1f", b"%1f", b"%25", b"%252f", b" ", b"%20", b"%:0", b"%@0",
+          b"%G0", b"%g0", b"%`0", b"%/0", b"%0:", b"%u00:9", b"%uFFef", b"%ufe0f", b"%u0100", b"%u2215"]
+
+# UTF-8 sequences at the boundaries the decoder splits on (overlong thresholds 0x80/0x800/0x10000, the half/full-width
+# window, surrogates, the last code point, bytes that can never start a sequence)
+UTF8_EDGE = [b"\xc1\xbf", b"\xc2\x80", b"\xdf\xbf", b"\xe0\x9f\xbf", b"\xe0\xa0\x80", b"\xef\xbb\xbf", b"\xef\xbc\x80",
+             b"\xef\xbb\xbe", b"\xef\xbf\xaf", b"\xef\xbf\xb0", b"\xef\xbf\xbf", b"\xed\x9f\xbf", b"\xed\xa0\x80", b"\xee\x80\x80",
+             b"\xf0\x8f\xbf\xbf", b"\xf0\x90\x80\x80", b"\xf3\xbf\xbf\xbf", b"\xf4\x8f\xbf\xbf", b"\xf4\x90\x80\x80", b"\xf5\x80\x80\x80",
+             b"\xc0\x80", b"\xe0\x80\x80", b"\xf0\x80\x80\x80", b"\xf8\x88\x80\x80\x80", b"\xfe", b"\xff", b"\x7f", b"\x80", b"\xbf",
+             b"\xc4\x87", b"\xe2\x88\x95", b"\xef\xbc\x8f"]
+
+
+def utf8_edge_strings():
+    """each edge sequence, its truncations, one wrong byte at every position, and a following/preceding byte"""
+    seen = set()
+    wrong = [b"/", b"\x7f", b"\x80", b"\xbf", b"\xc0", b"\xc2", b"\xe0", b"\xf0", b"\xff", b"\x00"]
+    for q in UTF8_EDGE:
+        for j in range(len(q) + 1):
+            seen.add(q[:j])
+            for w in wrong:
+                seen.add(q[:j] + w)
+                seen.add(q[:j] + w + q[j + 1:])
+                seen.add(q[:j] + w + q[j:])
+                seen.add(w + q[:j])
+        for q2 in UTF8_EDGE:
+            seen.add(q + q2)
+    return sorted(seen)
 
 
 def structured_strings(ctx):
@@ -143,14 +172,18 @@ def random_strings(ctx, n):
 
 
 def gen_path(ctx):
-    cfgs = covering_cfgs(ctx)
+    core, extra = covering_cfgs(ctx)
+    cfgs = core + extra
     L = 5 if ctx.thorough() else 4
-    strs = list(vf.strings_upto(ALPHA, L))
     cases = [RAWNUL_CASE]
-    hexes = [vf.hexs(s) for s in strs]
-    for c in cfgs:
+    hexes = [vf.hexs(s) for s in vf.strings_upto(ALPHA, L)]
+    hexes1 = [vf.hexs(s) for s in vf.strings_upto(ALPHA, L - 1)]
+    for c in core:
         pre = "path\t" + c + "\t"
         cases += [pre + h for h in hexes]
+    for c in extra:
+        pre = "path\t" + c + "\t"
+        cases += [pre + h for h in (hexes if ctx.thorough() else hexes1)]
     if ctx.thorough():
         # length 6 under the personalities themselves
         h6 = [vf.hexs(bytes(t)) for t in itertools.product(ALPHA, repeat=6)]
@@ -162,6 +195,11 @@ def gen_path(ctx):
     for c in cfgs + rc:
         pre = "path\t" + c + "\t"
         cases += [pre + h for h in st]
+    ue = [vf.hexs(x) for x in utf8_edge_strings()]
+    for d in personality_cfgs() + [{**personality_cfgs()[2], "replacement": 0x2f, "utf8_inv": 400, "bestfit": True},
+                                   {**personality_cfgs()[0], "bestfit": True, "utf8_inv": 404}]:
+        pre = "path\t" + cfg_fields(d) + "\t"
+        cases += [pre + h for h in ue]
     # the 2^9 switch lattice x 3 handlings on short strings
     short = [vf.hexs(s) for s in vf.strings_upto(ALPHA, 3 if ctx.thorough() else 2)] + \
             [vf.hexs(t) for t in TOKENS]
@@ -174,7 +212,7 @@ def gen_path(ctx):
     r = ctx.rng
     for s in rs:
         cases.append("path\t" + r.choice(allc) + "\t" + vf.hexs(s))
-    return cases, len(cfgs)
+    return cases, (len(core), len(extra))
 
 
 def gen_dot(ctx):
@@ -299,11 +337,12 @@ def check(ctx):
             ctx.known.append("id=%s %s" % (k["id"], k["what"]))
     ctx.cov["exhaustive"] = False
     L = 5 if ctx.thorough() else 4
-    rule = ("S-path: all strings over {/ . %% u \\ 2 f 0 NUL 0xC0 0x80 A} up to length %d x %d configurations (every personality's "
+    rule = ("S-path: all strings over {/ . %% u \\ 2 f 0 NUL 0xC0 0x80 A} up to length %d x %d core configurations (every personality's "
             "URL_PATH decoder configuration from the regenerated t_personalities, all-on and all-off corners, each with every switch "
-            "flipped individually, every invalid-handling value, every unwanted code changed, the replacement byte changed, "
-            "handling x u_decode x bestfit, distinct status codes per anomaly); prefixes of concatenations of up to %d escape/UTF-8 tokens "
-            "x those configurations and random ones; the full 2^9 switch lattice x 3 handlings on strings up to length %d and the tokens; "
+            "flipped individually and every invalid-handling value) and up to length %d x %d more (every unwanted code changed, the "
+            "replacement byte changed, handling x u_decode x bestfit, distinct status codes per anomaly); prefixes of concatenations of up to %d escape/UTF-8 tokens "
+            "x those configurations and random ones; UTF-8 sequences at the overlong / half-full-width / surrogate / last-code-point "
+            "boundaries with truncations and one wrong byte at every position; the full 2^9 switch lattice x 3 handlings on strings up to length %d and the tokens; "
             "random strings to length 300 (all bytes / alphabet / token soup). S-dotseg: all strings over {/ . a} up to length %d plus "
             "random strings to length 300. Each case runs the four functions separately and the pipeline through "
             "htp_normalize_parsed_uri; compared: result bytes, tx->flags masked to HTP_PATH_*, response_status_expected_number. "
